@@ -4,7 +4,7 @@ NOTES = ('Model-based verification with explicit TLA+ specifications (specs/), c
          'specifications (Binding B). See DESIGN.md.')
 ENGINES = [
     {'name': 'instance-edges', 'path': 'specs/Instance.tla + specs/MC*.tla + harness/src/bin/replay.rs',
-     'serves_properties': ['C08'],
+     'serves_properties': ['C05', 'C06', 'C08'],
      'kind_free_text': 'TLC enumerates every edge of the bounded state graph of the instance/port specification; each edge is replayed on fresh real objects and the projection compared'},
 ]
 CLAIMED = {
@@ -17,5 +17,24 @@ CLAIMED = {
                  'observable predicates on public getters, decoded frames and the recording clock.'),
         'note': 'bounded depth; two foreign masters; recording filter stands in for the servo (its steering/demobilise calls mark which port touches the clock)',
     },
+}
+CLAIMED['C05'] = {
+    'engine': 'instance-edges', 'level': 'model_checking', 'design_ref': 'DESIGN.md section 4, C05',
+    'technique': 'TLA+ reference of IEEE 1588 Fig. 33-35 (module Bmca) + TLC case enumeration + replay of every case on the real PtpInstance',
+    'text': ('Module Bmca is the data set comparison and state decision transcribed from the standard; TLC checks its laws (antisymmetry, strictness, '
+             'ties only as error cases, transitivity, no cycles) on a finite domain and enumerates every case of the lattice own clockClass x prior port '
+             'states x qualified candidates per port x host port order (quick about 85 000 cases, thorough about 700 000) with invariants ParentIsBest, '
+             'OrderIndependent, OneSlave; each case is replayed through real ports into the real PtpInstance::bmca and every port state and data set compared.'),
+    'note': 'small exhaustive value domains as in the property; candidates qualified by two consecutive Announces; two and three ports',
+}
+CLAIMED['C06'] = {
+    'engine': 'instance-edges', 'level': 'model_checking', 'design_ref': 'DESIGN.md section 4, C06',
+    'technique': 'TLA+ model checking of the foreign master list with a ghost arrival window + edge-by-edge conformance replay + observable predicate on the real runs',
+    'text': ('TLC checks NeedTwo, NeverUnqualified, Expires, Sticks on the instance specification with one to three masters whose Announces arrive as '
+             'next/duplicate/stale/skipped sequence ids (incl. 65535->0) in every order relative to BMCA runs and receipt timeouts (exhaustive to a depth bound, '
+             'simulation to depth 60); NeedTwoDistinct holds for the intended design and fails for the code only through the recorded duplicate-sequenceId '
+             'finding. Every edge is replayed on a real port; list contents (hook), port state and parent are compared and the property is evaluated '
+             'from the delivered history alone.'),
+    'note': 'announce interval = BMCA interval; the capacity case (9 masters) only in the thorough tier by simulation',
 }
 NOT_CLAIMED = {}
